@@ -208,7 +208,7 @@ Section ConcreteAlways.
   Proof using Ha Hb Hd.
     intros B0 Hl Hs Hwf w p HI Hp.
     exact (try_backup_always (the_api TBase pa) (the_api TBackup pb) (Vp pa) (Vp pb) clean clean
-             (acc_p pa) (acc_p pb) (rh_p TBase pa) (rh_p TBackup pb) (wh_p TBase pa) (wh_p TBackup pb)
+             (acc_p pa) (acc_p pb) (rh_p TBase pa) (rh_p TBackup pb) (wh_p TBase pa) (wh_p TBackup pb) nohid nohid
              B0 Lb Lk Cb Ck Hl Hs Hwf w p HI Hp).
   Qed.
 
@@ -221,7 +221,7 @@ Section ConcreteAlways.
   Proof using Ha Hb Hd.
     intros B0 Hl Hs Hwf o w HI Hc.
     exact (step_always (the_api TBase pa) (the_api TBackup pb) (Vp pa) (Vp pb) clean clean
-             (acc_p pa) (acc_p pb) (rh_p TBase pa) (rh_p TBackup pb) (wh_p TBase pa) (wh_p TBackup pb)
+             (acc_p pa) (acc_p pb) (rh_p TBase pa) (rh_p TBackup pb) (wh_p TBase pa) (wh_p TBackup pb) nohid nohid
              B0 Lb Lb2 Lk Cb Ck Hl Hs Hwf o w HI Hc).
   Qed.
 
@@ -237,7 +237,7 @@ Section ConcreteAlways.
   Proof using Ha Hb Hd.
     intros B0 Hs w0 ops w Hinit Hrun k outs wh Hk.
     exact (run_always (the_api TBase pa) (the_api TBackup pb) (Vp pa) (Vp pb) clean clean
-             (acc_p pa) (acc_p pb) (rh_p TBase pa) (rh_p TBackup pb) (wh_p TBase pa) (wh_p TBackup pb)
+             (acc_p pa) (acc_p pb) (rh_p TBase pa) (rh_p TBackup pb) (wh_p TBase pa) (wh_p TBackup pb) nohid nohid
              B0 Lb Lb2 Lk Cb Ck Hs w0 ops w Hinit Hrun k outs wh Hk).
   Qed.
 
@@ -250,8 +250,8 @@ Section ConcreteAlways.
   Proof using Ha Hb Hd.
     intros B0 Hl Hs Hwf w HI.
     exact (rollback_always (the_api TBase pa) (the_api TBackup pb) (Vp pa) (Vp pb) clean clean
-             (acc_p pa) (acc_p pb) (rh_p TBase pa) (rh_p TBackup pb) (wh_p TBase pa) (wh_p TBackup pb)
-             B0 Lb Lk Cb Ck Hl Hs Hwf w HI).
+             (acc_p pa) (acc_p pb) (rh_p TBase pa) (rh_p TBackup pb) (wh_p TBase pa) (wh_p TBackup pb) nohid nohid
+             B0 Lb Lk Cb Ck Hl Hs Hwf (loc_ok_nohid B0) w HI).
   Qed.
 
   (** C02 at every instant, closed, Rollback included: a history of covered
@@ -267,7 +267,7 @@ Section ConcreteAlways.
   Proof using Ha Hb Hd.
     intros B0 Hs w0 ops w Hinit Hrun k outs wh Hk.
     exact (run_rollback_always (the_api TBase pa) (the_api TBackup pb) (Vp pa) (Vp pb) clean clean
-             (acc_p pa) (acc_p pb) (rh_p TBase pa) (rh_p TBackup pb) (wh_p TBase pa) (wh_p TBackup pb)
+             (acc_p pa) (acc_p pb) (rh_p TBase pa) (rh_p TBackup pb) (wh_p TBase pa) (wh_p TBackup pb) nohid nohid
              B0 Lb Lb2 Lk Cb Ck Hs w0 ops w Hinit Hrun k outs wh Hk).
   Qed.
 End ConcreteAlways.
